@@ -283,6 +283,8 @@ def track_a(ops, il, meta):
             hs = [int(w[2])]
         elif c in ("adep", "apdep"):
             hs = [int(w[1]), int(w[2])]
+        elif c in ("adepv", "apdepv"):
+            hs = [int(w[2])] + [int(w[j]) for j in range(5, len(w) - 1, 2)]
         if c in ("cadd", "csub", "cmul") and w[2][0] == "v":
             hs.append(int(w[2][1:]))
         if c == "asg":
@@ -301,7 +303,7 @@ def track_a(ops, il, meta):
                 tape_fresh = False
         elif c == "del":
             del idx[int(w[1])]
-        elif c in ("setp", "asg", "cadd", "csub", "cmul", "adep"):
+        elif c in ("setp", "asg", "cadd", "csub", "cmul", "adep", "adepv"):
             tape_fresh = False
         elif c == "pause":
             paused = meta.get("pausable", False)
